@@ -79,7 +79,7 @@ manifest = {
    "guard": "verif-hooks (cargo feature of tower-resilience-core, forwarded by tower-resilience-retry, tower-resilience-adaptive and tower-resilience-coalesce)",
    "enable": "/verif/harness/Cargo.toml depends on /repo/crates/* by path with features = [\"verif-hooks\"] on core, retry, adaptive and coalesce; every ./check rebuilds them from /repo's working tree",
    "baseline_off_cmd": "cd /repo && cargo nextest run --workspace --no-fail-fast --tool-config-file pb:/w/lib/nextest.toml --profile pb --test-threads 8 --offline",
-   "source_commits": ["8e75cc7", "8a0183c", "e4ce1f1"],
+   "source_commits": ["8e75cc7", "8a0183c", "e4ce1f1", "f37cb8b"],
    "add_only": True,
  },
  "engines": [
